@@ -105,9 +105,9 @@ TEXT = {
     },
     "C09": {
         "engine": "verus-extract+bounded-probe",
-        "technique": "Verus contracts on the extracted FXRates::try_new (rejection clauses), create_initial_edges and create_initial_fx_array; bounded probe of the real triangulation against a path-product oracle (stand-in, labelled bounded)",
-        "level_text": "Other (part proof, part bounded): PROVED for all inputs - an empty quote list, a currency count different from quotes + 1 (under- or over-specified) and inconsistent settlement dates are Err; create_initial_edges marks exactly the diagonal and the quoted pairs (both orientations); create_initial_fx_array puts every quote in its cell exactly as quoted, its reciprocal in the mirrored cell, one on the diagonal and leaves everything else zero (for quotes on pairwise different currency pairs). BOUNDED ONLY (never counted as proved) - the fill-in recursion mut_arrays_remaining_elements / create_fx_array: on the real compiled code, for quote trees on 2..8 (thorough: 2..12) currencies of six shapes, every orientation for n <= 7, rotated quote orders and four base choices, every one of the n*n cross rates equals the product of the quotes along the tree path (inverted where travelled backwards), quoted pairs are returned exactly, self rates are 1, first-order sensitivities to fx_<pair> are +-cross/quote on the path and 0 elsewhere; nine degenerate quote sets (duplicate, reversed duplicate, triangle, two components, cycle plus isolated pair with the right count, settlement mismatches, empty) are rejected.",
-        "level_note": "The deciding recursion is outside Verus' reach (sum_axis / zip / filter / max_by_key / itertools::combinations / HashSet) and outside Kani's (hashing containers); the probe is a bounded stand-in with the stated bound. Trusted: the probe's oracle, rustc.",
+        "technique": "Verus contracts on the extracted FXRates::try_new (rejection clauses), create_initial_edges, create_initial_fx_array and the fill-in recursion mut_arrays_remaining_elements (potential-vector invariant over an abstract ring; partial correctness); bounded probe of the real triangulation against a path-product oracle for the rest (stand-in, labelled bounded)",
+        "level_text": "Other (part proof, part bounded): PROVED for all inputs - an empty quote list, a currency count different from quotes + 1 (under- or over-specified) and inconsistent settlement dates are Err; create_initial_edges marks exactly the diagonal and the quoted pairs (both orientations); create_initial_fx_array puts every quote in its cell exactly as quoted, its reciprocal in the mirrored cell, one on the diagonal and leaves everything else zero (for quotes on pairwise different currency pairs). Also PROVED (partial correctness, termination not verified): the extracted body of the fill-in recursion mut_arrays_remaining_elements keeps the edge matrix symmetric 0/1, never overwrites a populated entry (each quoted pair stays exactly as quoted), writes only values consistent with EVERY potential vector the populated entries were consistent with (a[i][j] * p_i == p_j, so every cross it produces is the product of the quotes along any path, inverted where travelled backwards, and each rate times its inverse is one), and returns Ok(true) only when every edge is populated. BOUNDED ONLY (never counted as proved) - completeness (every tree gets filled, degenerate sets of the right count are rejected), independence of quote order and base, the lifting in create_fx_array: on the real compiled code, for quote trees on 2..8 (thorough: 2..12) currencies of six shapes, every orientation for n <= 7, rotated quote orders and four base choices, every one of the n*n cross rates equals the product of the quotes along the tree path (inverted where travelled backwards), quoted pairs are returned exactly, self rates are 1, first-order sensitivities to fx_<pair> are +-cross/quote on the path and 0 elsewhere; nine degenerate quote sets (duplicate, reversed duplicate, triangle, two components, cycle plus isolated pair with the right count, settlement mismatches, empty) are rejected.",
+        "level_note": "The three selection expressions of the recursion (sum_axis / zip / filter / max_by_key / itertools::combinations chains) are replaced by ASSUMED contracts (declared substitutions); termination and progress are not proved; the probe is a bounded stand-in with the stated bound. Trusted: Verus/Z3, extractor, ring axioms, the probe's oracle, rustc.",
         "design_ref": "DESIGN.md §7 C09",
     },
     "C10": {
